@@ -194,10 +194,15 @@ Definition clipk (k : Z) : nat := Z.to_nat (Z.min (Z.max k 0) maxPicks).
    [7; k]                     k picks on the current picker                    obs [k; pos*16+state ...] | [0]
    [10; id; w]                Aggregator.Add                                   obs [nupd; state]
    [11; id]                   Aggregator.Remove                                obs [nupd; state]
-   [12; id; s]                Aggregator.UpdateState                           obs [nupd; state]  *)
+   [12; id; s]                Aggregator.UpdateState                           obs [nupd; state]
+   [13; so; sb; sn]           a fresh real weighted_target balancer with targets a, b: a reports so, b
+                              reports sb; a config update changes the child policy NAME of a (the
+                              old child is removed, a new one starts in CONNECTING); the new child
+                              reports sn          obs [state after phase 1; after the rename; after sn]  *)
 Inductive opc :=
 | ORec (old new : Z) | OUpd (r nx : Z) (eps : list (Z * Z)) | ORep (id s nx : Z) | OErr (nx : Z)
-| OSet (v : Z) | OPick (k : Z) | OAdd (id w : Z) | ORem (id : Z) | OAgU (id s : Z).
+| OSet (v : Z) | OPick (k : Z) | OAdd (id w : Z) | ORem (id : Z) | OAgU (id s : Z)
+| ORen (so sb sn : Z).
 
 Definition decode (op : word) : option opc :=
   match op with
@@ -210,6 +215,7 @@ Definition decode (op : word) : option opc :=
   | [10; id; w] => Some (OAdd id w)
   | [11; id] => Some (ORem id)
   | [12; id; s] => Some (OAgU id s)
+  | [13; so; sb; sn] => Some (ORen so sb sn)
   | _ => None
   end.
 
@@ -279,6 +285,7 @@ Definition step (σ : state) (op : opc) : state * word :=
       let ag := ag_set id (s, sa') (s_ag σ) in
       (set_ag σ ag c, [1; ag_build ag c])
     end
+  | ORen so sb sn => (σ, [precedence [so; sb]; precedence [1; sb]; precedence [sn; sb]])
   end.
 
 Fixpoint run_from (σ : state) (ops : list word) : option (list word) :=
@@ -427,6 +434,10 @@ Definition clause_op (i : Z) (σ : state) (ms : option (list Z)) (op : opc) (o :
            let sts := ag_states (s_ag σ') in
            [(6, i, if zlen sts <? 2 ^ 64 then word_eqb o [1; precedence sts] else true)]
          end)
+  | ORen so sb sn =>
+    (* the aggregate is the precedence rule over the CURRENT children: the replaced child no
+       longer counts, its replacement counts as CONNECTING until it reports *)
+    (ms, [(6, i, word_eqb o [precedence [so; sb]; precedence [1; sb]; precedence [sn; sb]])])
   end.
 
 Fixpoint clauses_from (i : Z) (σ : state) (ms : option (list Z)) (ops obs : list word)
